@@ -1,300 +1,4 @@
-/* C03 harness: DTD results equal sequential execution in insertion order.
- * Legs (one executable, --leg):
- *   inproc : bounded-exhaustive program family x window/threshold x API x generator position, free running on
- *            N threads of ONE initialised context per worker process (the scheduler module comes from --sched).
- *   gate   : one execution stream, harness scheduler (dtd_sched.h): DFS over every interleaving of
- *            {insert next task} / {execute ready task T} (gate before every insertion and before the flush, through
- *            the real parsec_taskpool_test) and over every task order inside the runtime's own select calls
- *            (window blocking, final wait).
- * The oracle is the sequential reference model of dtd_driver.h. */
-#include "dtd_driver.h"
-#include "dtd_sched.h"
-#include "dtd_harness.h"
-
-typedef struct {
-    const char *leg, *name, *sched, *alpha, *hash;
-    int threads, nt_lo, nt_hi, ntiles, maxp, api_mask, nest, jobs, stride, nwin, win[8][2], spin, dup, keep;
-    long max_runs_per_case;
-} opts_t;
-static opts_t O;
-
-static void parse_opts(int argc, char **argv)
-{
-    O.leg = dh_arg(argc, argv, "--leg", "inproc"); O.name = dh_arg(argc, argv, "--name", O.leg); O.sched = dh_arg(argc, argv, "--sched", "");
-    O.alpha = dh_arg(argc, argv, "--alpha", "q"); O.hash = dh_arg(argc, argv, "--hash", "64");
-    O.threads = atoi(dh_arg(argc, argv, "--threads", "1"));
-    const char *nt = dh_arg(argc, argv, "--nt", "1:3"); O.nt_lo = atoi(nt); O.nt_hi = strchr(nt, ':') ? atoi(strchr(nt, ':') + 1) : O.nt_lo;
-    O.ntiles = atoi(dh_arg(argc, argv, "--tiles", "2")); O.maxp = atoi(dh_arg(argc, argv, "--maxp", "2"));
-    O.api_mask = atoi(dh_arg(argc, argv, "--api", "3")); O.nest = atoi(dh_arg(argc, argv, "--nest", "0"));
-    O.jobs = atoi(dh_arg(argc, argv, "--jobs", "8")); O.stride = atoi(dh_arg(argc, argv, "--stride", "1")); O.spin = atoi(dh_arg(argc, argv, "--spin", "0"));
-    O.dup = atoi(dh_arg(argc, argv, "--dup", "1"));      /* 0: no task names a tile twice; 1: all; 2: only programs with such a task */
-    dd_norecycle = atoi(dh_arg(argc, argv, "--norecycle", "0"));
-    O.keep = atoi(dh_arg(argc, argv, "--keep", "-1"));   /* runtime_keep_highest_priority_task: -1 = default of the leg (gate: 0, so that every ready task goes through select; others: library default 1) */
-    O.max_runs_per_case = atol(dh_arg(argc, argv, "--maxruns", "0"));
-    const char *w = dh_arg(argc, argv, "--win", "1,1;2,1;4,2;0,0"); O.nwin = 0;
-    while (*w && O.nwin < 8) { O.win[O.nwin][0] = (int)strtol(w, (char **)&w, 10); if (*w == ',') w++; O.win[O.nwin][1] = (int)strtol(w, (char **)&w, 10); O.nwin++; if (*w == ';') w++; }
-}
-static int alpha_build(dd_task_t *alpha, int cap)
-{
-    int rw_only = (O.alpha[0] == 'q'), allow3 = (O.alpha[0] == 'x');
-    return dd_alphabet(alpha, cap, O.ntiles, O.maxp, rw_only, allow3);
-}
-static parsec_context_t *rt_init(int threads)
-{
-    if (O.sched && O.sched[0]) setenv("PARSEC_MCA_mca_sched", O.sched, 1);
-    /* the default 2^16-bucket task/tile hash tables cost ~7 ms per taskpool in the instrumented build (bucket init loop);
-     * their size is irrelevant to the property, --hash default keeps the library defaults */
-    if (strcmp(O.hash, "default")) { setenv("PARSEC_MCA_dtd_task_hash_size", O.hash, 1); setenv("PARSEC_MCA_dtd_tile_hash_size", O.hash, 1); }
-    int argc = 1; char *av[] = { (char *)"c03", NULL }; char **argv = av;
-    parsec_context_t *ctx = parsec_init(threads, &argc, &argv);
-    if (!ctx) { fprintf(stderr, "parsec_init failed\n"); exit(2); }
-    { extern int parsec_runtime_keep_highest_priority_task; int k = O.keep >= 0 ? O.keep : (!strcmp(O.leg, "gate") ? 0 : 1); parsec_runtime_keep_highest_priority_task = k; O.keep = k; }
-    return ctx;
-}
-static void case_kv(const dd_prog_t *p, const dd_cfg_t *cfg, const char *choices)
-{
-    char ps[256]; dd_prog_print(p, ps, sizeof(ps));
-    dh_case(O.name, "\"harness\":\"c03\",\"leg\":\"%s\",\"program\":\"%s\",\"window\":\"%d\",\"threshold\":\"%d\",\"api\":\"%d\",\"gen_at\":\"%d\",\"threads\":\"%d\",\"sched\":\"%s\",\"tiles\":\"%d\",\"norecycle\":\"%d\",\"keep\":\"%d\",\"choices\":\"%s\"",
-            O.leg, ps, cfg->window, cfg->threshold, cfg->api, cfg->gen_at, O.threads, O.sched, O.ntiles, dd_norecycle, O.keep, choices ? choices : "");
-}
-static uint64_t behaviour_hash(const dd_prog_t *p, const dd_cfg_t *cfg)
-{
-    /* (program, configuration, execution order by enter stamp, thread of every task) */
-    char ps[256]; int n = dd_prog_print(p, ps, sizeof(ps));
-    uint64_t h = dh_hash(ps, (size_t)n, 7); h = dh_hash(cfg, sizeof(*cfg), h);
-    for (int t = 0; t < p->nt; t++) { int64_t v[2] = { dd_log[t].enter, dd_log[t].th }; h = dh_hash(v, sizeof(v), h); }
-    return h;
-}
-static int run_is_nontrivial(const dd_prog_t *p)
-{
-    for (int t = 1; t < p->nt; t++) if (dd_log[t].enter < dd_log[t - 1].enter || dd_log[t].th != dd_log[0].th) return 1;
-    return 0;
-}
-
-/* iterate the canonical programs of this worker's slice */
-typedef int (*prog_cb)(const dd_prog_t *p, long pidx, void *arg);
-static long for_programs(int j, int J, prog_cb cb, void *arg, double t_end, int *cut)
-{
-    static dd_task_t alpha[4096]; int na = alpha_build(alpha, 4096); long pidx = 0, mine = 0;
-    for (int nt = O.nt_lo; nt <= O.nt_hi; nt++) {
-        int idx[DD_MAXT]; memset(idx, 0, sizeof(idx));
-        do {
-            dd_prog_t p; dd_prog_from_idx(&p, alpha, idx, nt, O.ntiles);
-            if (!dd_prog_canonical(&p)) continue;
-            if (O.dup != 1) { int d = dd_prog_has_dup(&p); if ((O.dup == 0 && d) || (O.dup == 2 && !d)) continue; }
-            long id = pidx++;
-            if (id % O.stride) continue;
-            if ((id / O.stride) % J != j) continue;
-            if (t_end > 0 && dh_now() > t_end) { *cut = 1; return mine; }
-            mine++;
-            if (cb(&p, id, arg)) return mine;
-        } while (dd_odometer_next(idx, nt, na));
-    }
-    return mine;
-}
-
-/* ------------------------------------------------------------------ leg: inproc */
-typedef struct { dd_env_t env; dh_stats_t *st; dh_set_t seen; } inproc_t;
-static int inproc_case(inproc_t *I, const dd_prog_t *p, const dd_cfg_t *cfg)
-{
-    dd_ref_t ref; dd_res_t res; char msg[400];
-    case_kv(p, cfg, NULL);
-    dd_run(&I->env, p, cfg, &res);
-    dd_reference(p, &ref);
-    I->st->executions++; I->st->transitions += p->nt;
-    if (dh_set_add(&I->seen, behaviour_hash(p, cfg))) I->st->outcomes++;
-    if (run_is_nontrivial(p)) I->st->nontrivial++;
-    if (dd_check_values(p, cfg, &ref, dd_log, res.final, dd_gen_count, msg, sizeof(msg))) {
-        dh_violation(msg); I->st->violations++; I->st->exhaustive = 0; return 1;
-    }
-    return 0;
-}
-/* configurations of one program: every window pair with the function-pointer API; the library-default window with
- * explicit task classes; with --nest: the generator task taking over at every position g, under the first and the
- * last window pair of the list */
-static int cfg_list(const dd_prog_t *p, dd_cfg_t *out)
-{
-    int n = 0;
-    for (int w = 0; w < O.nwin; w++) if (O.api_mask & 1) out[n++] = (dd_cfg_t){ O.win[w][0], O.win[w][1], 0, -1, -1, O.spin };
-    if (O.api_mask & 2) out[n++] = (dd_cfg_t){ O.win[O.nwin - 1][0], O.win[O.nwin - 1][1], 1, -1, -1, O.spin };
-    if (O.nest) for (int g = 0; g < p->nt; g++) {
-        out[n++] = (dd_cfg_t){ O.win[0][0], O.win[0][1], (O.api_mask & 1) ? 0 : 1, g, -1, O.spin };
-        if (O.nwin > 1) out[n++] = (dd_cfg_t){ O.win[O.nwin - 1][0], O.win[O.nwin - 1][1], (O.api_mask & 2) ? 1 : 0, g, -1, O.spin };
-    }
-    return n;
-}
-static int inproc_prog(const dd_prog_t *p, long pidx, void *arg)
-{
-    inproc_t *I = (inproc_t *)arg; (void)pidx;
-    I->st->states++;
-    dd_cfg_t cf[64]; int nc = cfg_list(p, cf);
-    for (int c = 0; c < nc; c++) if (inproc_case(I, p, &cf[c]) && I->st->violations >= 3) return 1;
-    if (I->st->nsamples < 2 && (I->st->states == 3 || I->st->states == 700)) {
-        char ps[256]; dd_prog_print(p, ps, sizeof(ps));
-        dh_stats_sample(I->st, "program [%s] threads=%d sched=%s: %d window/api/generator configurations equal the sequential reference (tile a finally %ld)", ps, O.threads, O.sched[0] ? O.sched : "default", nc, (long)*(int64_t *)vdc_elem(I->env.dc, 0));
-    }
-    return 0;
-}
-static const char *SCHEDS_ALL[] = { "ap", "gd", "ip", "lfq", "lhq", "ll", "llp", "ltq", "pbq", "rnd", "spq" };
-static const char *SCHEDS[11]; static int NSCHEDS = 0;
-static void scheds_parse(const char *excl)     /* all 11 modules minus a comma separated exclusion list */
-{
-    NSCHEDS = 0;
-    for (int i = 0; i < 11; i++) { char pat[16]; snprintf(pat, sizeof(pat), ",%s,", SCHEDS_ALL[i]); char hay[128]; snprintf(hay, sizeof(hay), ",%s,", excl); if (!strstr(hay, pat)) SCHEDS[NSCHEDS++] = SCHEDS_ALL[i]; }
-}
-static void inproc_worker(int j, int J, void *arg, dh_stats_t *st)
-{
-    (void)arg; inproc_t I; memset(&I, 0, sizeof(I)); I.st = st;
-    if (!strcmp(O.leg, "scheds")) { O.sched = SCHEDS[j % NSCHEDS]; j = 0; J = 1; }
-    parsec_context_t *ctx = rt_init(O.threads);
-    dd_env_init(&I.env, ctx, O.ntiles);
-    int cut = 0;
-    for_programs(j, J, inproc_prog, &I, dh_deadline_s > 0 ? dh_now() + dh_deadline_s : 0, &cut);
-    if (cut) st->exhaustive = 0;
-    dd_env_fini(&I.env);
-    parsec_fini(&ctx);
-}
-
-/* ------------------------------------------------------------------ leg: gate (one stream, DFS) */
-typedef struct { dd_env_t env; dh_stats_t *st; dh_set_t seen; double t_end; const unsigned char *replay; int nreplay; int verbose; } gate_t;
-static void gate_hook(parsec_taskpool_t *tp, int next)
-{
-    char lb[16]; if (next >= dd_cur_prog->nt) snprintf(lb, sizeof(lb), "|flush"); else snprintf(lb, sizeof(lb), "|ins%d", next);
-    ds_gate(tp, lb);
-}
-static void gate_livelock(const char *task)
-{
-    char msg[200]; snprintf(msg, sizeof(msg), "livelock: ready task %s is refused by data_lookup (AGAIN) forever although no other task can run", task);
-    dh_violation(msg); fflush(stdout); _exit(77);   /* the parent counts it; the stats of this worker are lost */
-}
-static int gate_case(gate_t *G, const dd_prog_t *p, const dd_cfg_t *cfg)
-{
-    static ds_explorer_t ex; dd_ref_t ref; dd_res_t res; char msg[400], cs[DS_MAXPTS * 4];
-    dd_reference(p, &ref);
-    if (G->replay) ds_begin_replay(&ex, G->replay, G->nreplay); else ds_begin(&ex, 0);
-    ex.max_runs = G->replay ? 1 : O.max_runs_per_case;
-    int bad = 0;
-    while (ds_next(&ex)) {
-        if (G->t_end > 0 && dh_now() > G->t_end) { ex.exhaustive = 0; ex.cur = NULL; break; }
-        /* the kv of the case names the prefix; the full choice list is added on violation */
-        { size_t o = 0; cs[0] = 0; for (int i = 0; i < ex.prefix_len; i++) o += snprintf(cs + o, sizeof(cs) - o, "%s%d", i ? "," : "", ex.prefix[i]); case_kv(p, cfg, cs); }
-        dd_run(&G->env, p, cfg, &res);
-        ds_choices_str(&ex, cs, sizeof(cs));
-        G->st->executions++;
-        if (dh_set_add(&G->seen, dh_hash(ex.order, strlen(ex.order), behaviour_hash(p, cfg)))) G->st->outcomes++;
-        if (G->verbose) printf("  trace: %s\n  choices: %s\n", ex.order, cs);
-        if (dd_check_values(p, cfg, &ref, dd_log, res.final, dd_gen_count, msg, sizeof(msg))) {
-            case_kv(p, cfg, cs);
-            char m2[3000]; snprintf(m2, sizeof(m2), "%s | trace: %s", msg, ex.order);
-            dh_violation(m2); G->st->violations++; bad = 1;
-        }
-        if (G->st->nsamples < 2 && ex.runs == 5 && (G->st->states == 40 || G->st->states == 400)) {
-            char ps[256]; dd_prog_print(p, ps, sizeof(ps));
-            dh_stats_sample(G->st, "program [%s] window=%d/%d interleaving: %s", ps, cfg->window, cfg->threshold, ex.order);
-        }
-        ds_end_run(&ex);
-        if (ex.diverged) { fprintf(stderr, "c03 gate: nondeterministic replay\n"); G->st->broken++; break; }
-        if (bad) break;
-    }
-    while (ex.stack) { ds_item_t *n = ex.stack->next; free(ex.stack); ex.stack = n; ex.exhaustive = 0; }
-    ds_ex = NULL;
-    G->st->transitions += ex.transitions; G->st->nontrivial += ex.nontrivial; G->st->extra[0] += ex.nodes;
-    if (ex.max_points > G->st->extra[6]) G->st->extra[6] = ex.max_points;
-    if (!ex.exhaustive && !G->replay) G->st->exhaustive = 0;
-    return bad;
-}
-static int gate_prog(const dd_prog_t *p, long pidx, void *arg)
-{
-    gate_t *G = (gate_t *)arg; (void)pidx;
-    G->st->states++;
-    for (int w = 0; w < O.nwin; w++) for (int g = -1; g < (O.nest ? p->nt : 0); g++) {
-        dd_cfg_t cfg = { O.win[w][0], O.win[w][1], (int)(pidx & 1), g, -1, 0 };
-        if (gate_case(G, p, &cfg) && G->st->violations >= 3) return 1;
-        if (G->st->broken) return 1;
-    }
-    return 0;
-}
-static void gate_worker(int j, int J, void *arg, dh_stats_t *st)
-{
-    (void)arg; gate_t G; memset(&G, 0, sizeof(G)); G.st = st;
-    parsec_context_t *ctx = rt_init(1);
-    ds_install(ctx); ds_nstreams = 1; ds_on_livelock = gate_livelock;
-    dd_env_init(&G.env, ctx, O.ntiles);
-    dd_hook_before_insert = gate_hook;
-    G.t_end = dh_deadline_s > 0 ? dh_now() + dh_deadline_s : 0;
-    int cut = 0;
-    for_programs(j, J, gate_prog, &G, G.t_end, &cut);
-    if (cut) st->exhaustive = 0;
-    st->extra[2] = ds_again_events;
-    dd_env_fini(&G.env);
-    ds_uninstall(ctx);
-    parsec_fini(&ctx);
-}
-
-/* ------------------------------------------------------------------ replay */
-static dd_prog_t R_prog; static dd_cfg_t R_cfg; static unsigned char R_ch[DS_MAXPTS]; static int R_nch;
-static void replay_worker(int j, int J, void *arg, dh_stats_t *st)
-{
-    (void)j; (void)J; (void)arg;
-    char ps[256]; dd_prog_print(&R_prog, ps, sizeof(ps));
-    printf("replay: leg=%s program=[%s] window=%d threshold=%d api=%d gen_at=%d threads=%d sched=%s\n", O.leg, ps, R_cfg.window, R_cfg.threshold, R_cfg.api, R_cfg.gen_at, O.threads, O.sched);
-    dd_ref_t ref; dd_reference(&R_prog, &ref);
-    for (int t = 0; t < R_prog.nt; t++) { printf("  reference: task %d sees", t); for (int k = 0; k < R_prog.t[t].np; k++) printf(" %s%c=%ld", dd_mode_name[R_prog.t[t].mode[k]], 'a' + R_prog.t[t].tile[k], (long)ref.seen[t][k]); printf("\n"); }
-    if (!strcmp(O.leg, "gate")) {
-        gate_t G; memset(&G, 0, sizeof(G)); G.st = st; G.replay = R_ch; G.nreplay = R_nch; G.verbose = 1;
-        parsec_context_t *ctx = rt_init(1); ds_install(ctx); ds_nstreams = 1; ds_on_livelock = gate_livelock;
-        dd_env_init(&G.env, ctx, O.ntiles); dd_hook_before_insert = gate_hook;
-        gate_case(&G, &R_prog, &R_cfg);
-        for (int t = 0; t < R_prog.nt; t++) { printf("  observed:  task %d saw ", t); for (int k = 0; k < R_prog.t[t].np; k++) printf(" %ld", (long)dd_log[t].seen[k]); printf(" (executions: %d)\n", dd_log[t].count); }
-        dd_env_fini(&G.env); ds_uninstall(ctx); parsec_fini(&ctx);
-    } else {
-        inproc_t I; memset(&I, 0, sizeof(I)); I.st = st;
-        parsec_context_t *ctx = rt_init(O.threads); dd_env_init(&I.env, ctx, O.ntiles);
-        int tries = 0;
-        for (; tries < 5000 && !st->violations; tries++) inproc_case(&I, &R_prog, &R_cfg);
-        printf("  free-running case executed %d times, %d violation(s)\n", tries, st->violations);
-        for (int t = 0; t < R_prog.nt; t++) { printf("  last run:  task %d saw ", t); for (int k = 0; k < R_prog.t[t].np; k++) printf(" %ld", (long)dd_log[t].seen[k]); printf(" (executions: %d, thread %d)\n", dd_log[t].count, dd_log[t].th); }
-        dd_env_fini(&I.env); parsec_fini(&ctx);
-    }
-}
-static char R_leg[32], R_sched[32], R_name[64]; static double R_hang = 0;
-static int do_replay(void)
-{
-    const char *f = dh_replay_file; char b[4096];
-    if (dh_replay_get(f, "program", b, sizeof(b)) || dd_prog_parse(&R_prog, b)) { fprintf(stderr, "replay: no/invalid program in %s\n", f); return 2; }
-    dh_replay_get(f, "leg", R_leg, sizeof(R_leg)); O.leg = R_leg;
-    dh_replay_get(f, "sched", R_sched, sizeof(R_sched)); O.sched = R_sched;
-    dh_replay_get(f, "scenario", R_name, sizeof(R_name)); O.name = R_name; O.hash = "64";
-    O.threads = dh_replay_int(f, "threads", 1); O.ntiles = dh_replay_int(f, "tiles", 2);
-    R_cfg.window = dh_replay_int(f, "window", 0); R_cfg.threshold = dh_replay_int(f, "threshold", 0); R_cfg.api = dh_replay_int(f, "api", 0);
-    dd_norecycle = dh_replay_int(f, "norecycle", 0); O.keep = dh_replay_int(f, "keep", -1);
-    R_cfg.gen_at = dh_replay_int(f, "gen_at", -1); R_cfg.flush_mask = -1; R_cfg.spin = 0;
-    R_nch = 0; if (!dh_replay_get(f, "choices", b, sizeof(b))) { const char *c = b; while (*c && R_nch < DS_MAXPTS) { R_ch[R_nch++] = (unsigned char)strtol(c, (char **)&c, 10); if (*c == ',') c++; } }
-    dh_stats_t st; dh_hang_s = 20;
-    if (R_hang > 0) dh_hang_s = R_hang;
-    dh_pool(1, replay_worker, NULL, &st);
-    if (st.violations) { printf("VIOLATION property=C03 replay=%s\n", f); return 1; }
-    printf("replay: the case passes\n");
-    return st.broken ? 2 : 0;
-}
-
-int main(int argc, char **argv)
-{
-    dh_init(argc, argv, "C03");
-    parse_opts(argc, argv);
-    R_hang = atof(dh_arg(argc, argv, "--hang", "0"));
-    if (dh_replay_file) return do_replay();
-    double t0 = dh_now(); dh_stats_t st;
-    char extra[300];
-    if (!strcmp(O.leg, "gate")) {
-        dh_pool(O.jobs, gate_worker, NULL, &st);
-        snprintf(extra, sizeof(extra), "\"tree_nodes\":%ld,\"max_choice_points\":%ld,\"again_resubmissions\":%ld,\"programs\":%ld", st.extra[0], st.extra[6], st.extra[2], st.states);
-    } else {
-        scheds_parse(dh_arg(argc, argv, "--exclude", ""));
-        dh_pool(!strcmp(O.leg, "scheds") ? NSCHEDS : O.jobs, inproc_worker, NULL, &st);
-        if (!strcmp(O.leg, "scheds")) { static char sl[128]; sl[0] = 0; for (int i = 0; i < NSCHEDS; i++) { strcat(sl, i ? "," : ""); strcat(sl, SCHEDS[i]); } O.sched = sl; }
-        snprintf(extra, sizeof(extra), "\"programs\":%ld,\"threads\":%d,\"sched\":\"%s\"", st.states, O.threads, O.sched[0] ? O.sched : "default");
-    }
-    dh_report(O.name, &st, dh_now() - t0, extra);
-    return dh_finish(st.violations, st.broken);
-}
+/* C03: DTD results equal sequential execution in insertion order. All the machinery is in engine/rt/dtd_main.h. */
+#define DTD_PROPERTY "C03"
+#define DTD_DEFAULT_ORACLE 1      /* observations + final values against the sequential reference */
+#include "dtd_main.h"
